@@ -239,6 +239,12 @@ func (g *Gen) scalar() *Scalar {
 	}
 }
 
+// ImplicitTypes: the well-known types that can be referred to without an import (imports.go
+// implicitImports); two of them are also the types of the implicit leading fields of topic messages.
+var ImplicitTypes = [][2]string{{"j5.list.v1", "PageRequest"}, {"j5.list.v1", "PageResponse"}, {"j5.list.v1", "QueryRequest"},
+	{"j5.state.v1", "StateMetadata"}, {"j5.state.v1", "EventMetadata"}, {"j5.state.v1", "EventPublishMetadata"},
+	{"j5.messaging.v1", "UpsertMetadata"}, {"j5.messaging.v1", "RequestMetadata"}}
+
 // pickRef chooses a declared type of the wanted kind that the current file may refer to.
 func (g *Gen) pickRef(kind string) *Ref {
 	if !g.Cfg.Refs {
@@ -263,8 +269,7 @@ func (g *Gen) pickRef(kind string) *Ref {
 		}
 	}
 	if kind == "object" && g.R.Chance(6) { // implicitly importable well-known types
-		w := vh.Pick(g.R, [][2]string{{"j5.list.v1", "PageRequest"}, {"j5.list.v1", "PageResponse"}, {"j5.list.v1", "QueryRequest"},
-			{"j5.state.v1", "StateMetadata"}, {"j5.state.v1", "EventMetadata"}, {"j5.messaging.v1", "UpsertMetadata"}})
+		w := vh.Pick(g.R, ImplicitTypes)
 		g.Stats["ref_implicit"]++
 		if g.R.Chance(30) {
 			spec := g.importSpec(w[0], "")
@@ -296,6 +301,15 @@ func (g *Gen) importSpec(pkg, file string) string {
 		return s
 	}
 	parts := strings.Split(pkg, ".")
+	seg := parts[len(parts)-2]
+	// an import without alias also claims the short name (the name part before the version), and a
+	// later claim wins: it must not take the short name away from an import that is referred to by it
+	segUsed, segShared := false, g.lastButOneTaken(seg)
+	for _, s := range g.imports {
+		if s == seg {
+			segUsed = true
+		}
+	}
 	var imp *Import
 	var spec string
 	switch {
@@ -303,17 +317,23 @@ func (g *Gen) importSpec(pkg, file string) string {
 		imp = &Import{Path: file} // a .proto file named by path: key is its package
 		spec = pkg
 		g.Stats["import_path"]++
-	case g.R.Chance(40):
+	case segUsed || g.R.Chance(40):
 		alias := vh.Pick(g.R, []string{"al", "other", "dep", "ext"}) + fmt.Sprint(len(g.imports))
 		imp = &Import{Path: pkg, Alias: alias}
 		spec = alias
 		g.Stats["import_alias"]++
 	default:
 		imp = &Import{Path: pkg}
-		if g.R.Chance(50) || g.lastButOneTaken(parts[len(parts)-2]) {
+		switch {
+		case !segShared && g.R.Chance(50), segShared && g.R.Chance(25):
 			spec = pkg
-		} else {
-			spec = parts[len(parts)-2]
+		case segShared:
+			// an earlier import shares the short name but is referred to by its full name: the
+			// short name means the package imported last
+			spec = seg
+			g.Stats["import_short_name_shadows_earlier"]++
+		default:
+			spec = seg
 		}
 		g.Stats["import_plain"]++
 	}
@@ -497,8 +517,12 @@ func (g *Gen) property(sc *scope, depth int, inOneof bool) *Property {
 		switch k := g.R.Intn(100); {
 		case k < 20:
 			p.Required = true
-		case k < 32 && container == "":
+		case k < 32:
+			// optional arrays / maps too (fix d536c9b: not proto3_optional, plain repeated)
 			p.Optional = true
+			if container != "" {
+				g.Stats["optional_"+container]++
+			}
 		}
 	}
 	return p
@@ -688,7 +712,9 @@ func (g *Gen) topic() *Topic {
 	return nil
 }
 
-var pkgRoots = [][]string{{"foo", "v1"}, {"foo", "bar", "v1"}, {"acme", "baz", "v2"}, {"zed", "v1"}, {"acme", "users", "v1"}, {"lib", "common", "v3"}}
+// package directories: two to four name parts, and two that lie below the directory of another one
+var pkgRoots = [][]string{{"foo", "v1"}, {"foo", "bar", "v1"}, {"acme", "baz", "v2"}, {"zed", "v1"}, {"acme", "users", "v1"}, {"lib", "common", "v3"},
+	{"foo", "v1", "inner", "v1"}, {"acme", "baz", "v2", "ext", "v1"}, {"acme", "billing", "invoice", "v1"}, {"foo", "v2"}, {"acme", "baz", "v3"}}
 
 // Bundle generates a whole bundle; the returned package is the one to compile
 // (the last one: it may refer to all the others).
@@ -700,8 +726,15 @@ func (g *Gen) Bundle() (*Bundle, string) {
 		np = g.R.Range(1, g.Cfg.MaxPackages)
 	}
 	used := map[string]bool{}
+	siblings := map[string][]string{"foo.v1": {"foo", "v2"}, "foo.v2": {"foo", "v1"}, "acme.baz.v2": {"acme", "baz", "v3"}, "acme.baz.v3": {"acme", "baz", "v2"}}
 	for len(g.pkgs) < np {
 		dir := vh.Pick(g.R, pkgRoots)
+		if len(g.pkgs) > 0 && g.R.Chance(45) {
+			// another version of a package already there: both claim the same short name
+			if sib, ok := siblings[g.pkgs[len(g.pkgs)-1].name]; ok {
+				dir = sib
+			}
+		}
 		name := strings.Join(dir, ".")
 		if used[name] {
 			continue
